@@ -15,7 +15,7 @@ from sa.interp import Interp, Scenario, Sym, Const, Bytes, render, render_items,
 from sa import families
 from sa.loader import AnalysisError
 from sa.sigdata import enum_const
-from sa import s2kshape
+from sa import s2kshape, guards, vocab
 
 
 def strip(t):
@@ -40,47 +40,126 @@ def run(rep, prog, tier):
 R1, R2 = 'C12.1', 'C12.2'
 
 
+def inline_new(f):
+    """Interpreter inlining policy: helpers that are not part of the reference vocabulary are new code introduced by an edit
+    and are followed (the canonicaliser already inlines them wherever a statement can be hoisted; this covers the rest)."""
+    return f.name not in vocab.FUNCTIONS
+
+
+_ENC = r"(?:\.encode\((?:(?:encoding=)?'(?:utf-8|utf8|UTF-8|UTF8|utf_8)')?\)|\.encode\((?:encoding=)?'(?:utf-8|utf8|UTF-8|UTF8|utf_8)', (?:errors=)?'strict'\))"
+
+
+def norm_pass(text, pname):
+    """Spellings of "the UTF-8 octets of the str passphrase" -> passphrase.encode('utf-8')."""
+    text = re.sub(r'(?<![\w.])%s%s' % (re.escape(pname), _ENC), "%s.encode('utf-8')" % pname, text)
+    text = re.sub(r"(?<![\w.])(?:bytes|bytearray)\(%s, (?:encoding=)?'(?:utf-8|utf8|UTF-8|UTF8|utf_8)'\)" % re.escape(pname),
+                  "%s.encode('utf-8')" % pname, text)
+    return text
+
+
+# sample worlds for the by-value comparisons: (octet lengths of the unit's parts, decoded count)
+COUNTS = (1, 5, 13, 19, 20, 26, 27, 40, 1024, 1025, 65536, 65011712)
+SALT_LENS = (8,)
+PASS_LENS = (1, 5, 11, 12, 19, 32, 1500)
+
+
 def check_derive_key(rep, prog, r1='C12.1', r2='C12.2'):
     global R1, R2
     R1, R2 = r1, r2
     fi = prog.method('pgpy.packet.fields', 'String2Key', 'derive_key')
     rep.saw(fn=fi)
+    me, pname = fi.params[0], fi.params[1]
+    ci = fi.cls
     for spec, salted in (('Simple', False), ('Salted', True), ('Iterated', True)):
         for ptype in ('bytes', 'str'):
-            sc = Scenario(bind={'self.specifier': enum_const(prog, 'String2KeyType', spec)},
-                          args={'passphrase': Sym('passphrase', types={ptype}, nonnull=True)}, inline=lambda f: False)
+            sc = Scenario(bind={'%s.specifier' % me: enum_const(prog, 'String2KeyType', spec)},
+                          args={pname: Sym(pname, types={ptype}, nonnull=True)}, inline=inline_new)
             outs = Interp(prog, sc).run(fi)
             rep.analysed['paths'] += len(outs)
-            PASS = 'passphrase' if ptype == 'bytes' else "passphrase.encode('utf-8')"
-            unit_items = ([('SYM', 'self.salt')] if salted else []) + [('SYM', PASS)]
-            UNIT = render_items(unit_items)
-            want_paths = 2 if spec == 'Iterated' else 1
+            PASS = pname if ptype == 'bytes' else "%s.encode('utf-8')" % pname
+            SALT = '%s.salt' % me
+            unit_items = ([('SYM', SALT)] if salted else []) + [('SYM', PASS)]
             scen = '%s x %s passphrase' % (spec, ptype)
-            if len(outs) != want_paths:
-                rep.violation(R1, 'String2Key.derive_key', '%s: %d paths' % (scen, len(outs)),
-                              'expected %d path(s) for %s (the iterated form forks on count > len(salt+passphrase))' % (want_paths, scen),
-                              where=fi.where, scenario=scen, found=[s.facts for s in outs])
-                continue
-            for s in outs:
-                big = None
-                for t, v, _sk in s.facts:
-                    if 'self.count' in t:
-                        tt = strip(t)
-                        okc = tt in (strip('((String2KeyType.Iterated == String2KeyType.Iterated) and (self.count > len(%s)))' % UNIT),
-                                     strip('(self.count > len(%s))' % UNIT),
-                                     strip('((String2KeyType.Iterated == String2KeyType.Iterated) and (self.count >= len(%s)))' % UNIT))
-                        rep.check(okc, R1, 'String2Key.derive_key', '%s: branch %s' % (scen, t),
-                                  'the iterated count applies exactly when it exceeds one full copy of salt+passphrase', where=fi.where,
-                                  expected='self.count > len(%s)' % UNIT, found=t, scenario=scen)
-                        big = v
-                COUNT = 'self.count' if big else 'len(%s)' % UNIT
-                check_shape(rep, fi, s, scen + (' (count arm)' if big else ''), unit_items, UNIT, COUNT)
+            world = World(me, pname, SALT if salted else None, PASS, spec == 'Iterated', ci)
+            rets = [s for s in outs if s.raised is None]
+            if not rets:
+                rep.violation(R1, 'String2Key.derive_key', '%s: no returning path' % scen, 'derive_key never returns a key for %s' % scen,
+                              where=fi.where, scenario=scen)
+            for s in rets:
+                arm = world.restrict(s.facts)
+                check_shape(rep, fi, s, scen + ('' if len(rets) == 1 else ' (%s)' % arm), world)
 
 
-def check_shape(rep, fi, s, scen, unit_items, UNIT, COUNT):
+class World(object):
+    """Sample valuations of the free quantities of derive_key (lengths of salt and passphrase octets, decoded count, key and
+    digest sizes) under which the rule compares *values* of the index / length expressions the code uses, never their spelling."""
+    def __init__(self, me, pname, salt, pas, iterated, ci):
+        self.me, self.pname, self.salt, self.pas, self.iterated = me, pname, salt, pas, iterated
+        self.unit = ' '.join(x for x in (salt, pas) if x)
+        halg = ['%s.%s' % (me, n) for n in set(('halg', s2kshape._plain_getter_field(ci, me, 'halg') or 'halg'))]
+        encalg = ['%s.%s' % (me, n) for n in set(('encalg', s2kshape._plain_getter_field(ci, me, 'encalg') or 'encalg'))]
+        self.halg_texts = halg
+        self.samples = []
+        for sl_ in (SALT_LENS if salt else (0,)):
+            for pl in PASS_LENS:
+                for c in COUNTS:
+                    env = {'__L__': sl_ + pl, '__lp__': pl, '__ls__': sl_}
+                    for nm in ('count',):
+                        env['%s.%s' % (me, nm)] = c
+                    self.samples.append(env)
+        self.sizes = []
+        for k in (40, 64, 128, 192, 256):
+            for d in (16, 20, 28, 32, 48, 64):
+                env = {}
+                for h in halg:
+                    env['%s.digest_size' % h] = d
+                for e in encalg:
+                    env['%s.key_size' % e] = k
+                self.sizes.append((k, d, env))
+        self.live = list(self.samples)
+
+    def subst(self, text):
+        """Rendered value text -> parseable expression over the sample names."""
+        t = norm_pass(text, self.pname)
+        t = t.replace('len(%s)' % self.unit, '__L__')
+        t = t.replace('len(%s)' % self.pas, '__lp__')
+        if self.salt:
+            t = t.replace('len(%s)' % self.salt, '__ls__')
+        return t
+
+    def value(self, text, env):
+        return s2kshape.num_text(self.subst(text), env)
+
+    def restrict(self, facts):
+        """Keep the samples that agree with every decision of this path that is a comparison of known quantities."""
+        live = []
+        for env in self.samples:
+            def atom(a, _env=env):
+                if a[0] != 'cmp':
+                    return None
+                try:
+                    l, r = self.value(a[2], _env), self.value(a[3], _env)
+                except (s2kshape._NoFold, SyntaxError):
+                    return None
+                return {'==': l == r, '!=': l != r, '<': l < r, '<=': l <= r, '>': l > r, '>=': l >= r}.get(a[1])
+            if all(guards.eval_skel(sk, atom) in (None, v) for (_t, v, sk) in facts if sk is not None):
+                live.append(env)
+        self.live = live
+        if not live:
+            raise AnalysisError('String2Key.derive_key: a path whose decisions no sample satisfies: %s' % [f[0] for f in facts])
+        n_gt = sum(1 for e in live if e['%s.count' % self.me] > e['__L__'])
+        return 'count arm' if n_gt == len(live) else ('floor arm' if n_gt == 0 else 'both arms')
+
+    def want_count(self, env):
+        c, L = env['%s.count' % self.me], env['__L__']
+        return max(c, L) if self.iterated else L
+
+
+def check_shape(rep, fi, s, scen, world):
     c = 'String2Key.derive_key'
     ret = s.ret
     found = render(ret) if ret is not None else '<none>'
+    UNIT = world.unit
 
     def bad(msg, exp=None):
         rep.violation(R1, c, '%s: %s' % (scen, msg), 'S2K structure differs from RFC 4880 3.7.1: %s' % msg, where=fi.where,
@@ -91,7 +170,15 @@ def check_shape(rep, fi, s, scen, unit_items, UNIT, COUNT):
     if len(its) != 1 or its[0][0] != 'SLICE' or isinstance(its[0][1], str):
         return bad('result is not a truncation of the joined digests')
     sl = its[0]
-    if sl[2] not in ('', '0') or strip(sl[3]) not in ('(self.encalg.key_size//8)', '(keylen//8)'):
+    # truncation [:key_size // 8] by value
+    ok_tr = sl[2] in ('', '0')
+    try:
+        for k, d, env in world.sizes:
+            if world.value(sl[3], env) != k // 8:
+                ok_tr = False
+    except (s2kshape._NoFold, SyntaxError):
+        ok_tr = False
+    if not ok_tr:
         bad('truncation is [%s:%s], expected [:key_size // 8]' % (sl[2], sl[3]), '[:self.encalg.key_size // 8]')
     else:
         rep.ok(R1, c, 'truncated to key_size // 8', scenario=scen)
@@ -100,20 +187,28 @@ def check_shape(rep, fi, s, scen, unit_items, UNIT, COUNT):
         return bad('digests are not produced by one loop over the contexts')
     each = inner[0]
     var, coll, body = each[1], each[2], each[3]
-    # C12.2 context count
-    ctx = strip(coll)
-    ok_ctx = ctx in (strip('range(0, int(math.ceil((self.encalg.key_size / (self.halg.digest_size * 8)))))'),
-                     strip('range(int(math.ceil((self.encalg.key_size / (self.halg.digest_size * 8)))))'),
-                     strip('range(0, math.ceil((self.encalg.key_size / (self.halg.digest_size * 8))))'),
-                     strip('range(math.ceil((self.encalg.key_size / (self.halg.digest_size * 8))))'),
-                     strip('range(0, -((-self.encalg.key_size) // (self.halg.digest_size * 8)))'))
+    # C12.2 context count: range(N) / range(0, N) with N == ceil(key bits / digest bits) by value
+    ok_ctx = False
+    mrev = re.match(r'^reversed\((.*)\)$', coll)
+    if mrev:
+        bad('the digests are joined in reverse context order', 'first context leftmost')
+        coll = mrev.group(1)
+    m = re.match(r'^range\((?:0, )?(.*)\)$', coll)
+    if m and ', ' not in _top(m.group(1)):
+        ok_ctx = True
+        try:
+            for k, d, env in world.sizes:
+                if world.value(m.group(1), env) != -((-k) // (d * 8)):
+                    ok_ctx = False
+        except (s2kshape._NoFold, SyntaxError):
+            ok_ctx = False
     rep.check(ok_ctx, R2, c, '%s: contexts %s' % (scen, coll),
               'the number of hash contexts must be ceil(key bits / digest bits), numbered from 0', where=fi.where,
               expected='range(0, ceil(key_size / (digest_size * 8)))', found=coll, scenario=scen)
     if len(body) != 1 or body[0][0] != 'HASH':
         return bad('loop body is not one digest per context (joined in context order)')
     h = body[0]
-    rep.check(h[1] == 'self.halg', R1, c, '%s: hash algorithm %s' % (scen, h[1]), 'contexts use the specifier\'s hash algorithm',
+    rep.check(h[1] in world.halg_texts, R1, c, '%s: hash algorithm %s' % (scen, h[1]), 'contexts use the specifier\'s hash algorithm',
               where=fi.where, expected='self.halg', found=h[1], scenario=scen)
     hi = merge_consts(h[2])
     # preload: REP(00; i)
@@ -121,21 +216,85 @@ def check_shape(rep, fi, s, scen, unit_items, UNIT, COUNT):
         return bad('context %s is not preloaded with %s zero octets: %s' % (var, var, render_items(hi[:1])), 'REP(C(00);%s)' % var)
     rep.ok(R1, c, 'context i preloaded with i zero octets', scenario=scen)
     stream = hi[1:]
-    # STREAM = REP(UNIT; q) SLICE(UNIT;;r)
-    if len(stream) != 2 or stream[0][0] != 'REP' or stream[1][0] != 'SLICE':
-        return bad('hashed stream is not (unit * q) + unit[:r]: %s' % render_items(stream), 'REP(%s;q) SLICE(%s;;r)' % (UNIT, UNIT))
-    rep_unit, q = render_items(stream[0][1]), strip(stream[0][2])
-    sl_unit = stream[1][1] if isinstance(stream[1][1], str) else render_items(stream[1][1])
-    r_lo, r = stream[1][2], strip(stream[1][3])
-    if rep_unit != UNIT or sl_unit != UNIT:
-        return bad('stream unit is %s / %s' % (rep_unit, sl_unit), UNIT)
+    # STREAM = whole copies of UNIT (REP(UNIT; q) or UNIT itself), then at most one leading part SLICE(UNIT;;r), r <= len(UNIT);
+    # its length q * len(UNIT) + r is compared with COUNT by value over the sample worlds this path admits
+    nunit = len(world.unit.split(' '))
+
+    def parse_pieces(seq, allow_part=True):
+        """-> [('copies', qtext) | ('part', rtext, [copies...])] or None.  A part is the first r octets of whole copies."""
+        out, i = [], 0
+        while i < len(seq):
+            it = seq[i]
+            if it[0] == 'REP' and norm_pass(render_items(it[1]), world.pname) == UNIT:
+                out.append(('copies', it[2]))
+                i += 1
+            elif it[0] == 'REP' and parse_pieces(merge_consts(it[1]), False) is not None:
+                # (unit * a) * b
+                inner = parse_pieces(merge_consts(it[1]), False)
+                out.append(('copies', '(%s) * (%s)' % (' + '.join('(%s)' % t for _k, t in inner), it[2])))
+                i += 1
+            elif it[0] == 'SLICE' and allow_part and it[2] in ('', '0'):
+                base = it[1]
+                if isinstance(base, str):
+                    inner = [('copies', '1')] if norm_pass(base, world.pname) == UNIT else None
+                else:
+                    inner = parse_pieces(merge_consts(base), False)
+                if inner is None:
+                    return None
+                out.append(('part', it[3], inner))
+                i += 1
+            elif norm_pass(render_items(seq[i:i + nunit]), world.pname) == UNIT:
+                out.append(('copies', '1'))
+                i += nunit
+            else:
+                return None
+        return out
+    pieces = parse_pieces(stream)
+    if pieces is None:
+        return bad('hashed stream is not made of copies of %s and a leading part of them: %s' % (UNIT, render_items(stream)),
+                   'REP(%s;q) SLICE(%s;;r)' % (UNIT, UNIT))
+    if any(p[0] == 'part' for p in pieces[:-1]):
+        return bad('a partial copy of the unit is followed by more data: %s' % render_items(stream))
     rep.ok(R1, c, 'stream unit = %s' % UNIT, scenario=scen)
-    L = strip('len(%s)' % UNIT)
-    Cn = strip(COUNT)
-    q_ok = q in ('(%s//%s)' % (Cn, L), 'divmod(%s,%s)[0]' % (Cn, L))
-    r_ok = r in ('(%s-((%s//%s)*%s))' % (Cn, Cn, L, L), '(%s%%%s)' % (Cn, L), 'divmod(%s,%s)[1]' % (Cn, L),
-                 '(%s-(%s*(%s//%s)))' % (Cn, L, Cn, L)) and r_lo in ('', '0')
-    rep.check(q_ok and r_ok, R1, c, '%s: stream length q=%s r=%s' % (scen, stream[0][2], stream[1][3]),
-              'the stream must be exactly COUNT = %s octets: full copies = COUNT // len(unit), remainder = COUNT %% len(unit)' % COUNT,
-              where=fi.where, expected='q = %s // len(unit), r = %s - q * len(unit)' % (COUNT, COUNT),
-              found='q = %s, r = %s' % (stream[0][2], stream[1][3]), scenario=scen)
+    wrong = None
+    try:
+        for env in world.live:
+            L = env['__L__']
+            total = 0
+            for p in pieces:
+                v = world.value(p[1], env)
+                if p[0] == 'part':
+                    have = sum(world.value(t, env) for _k, t in p[2]) * L
+                    if not (0 <= v <= have):
+                        wrong = (env, 'the first %s octets of %d' % (v, have))
+                    total += v
+                else:
+                    if v < 0:
+                        wrong = (env, '%s copies' % v)
+                    total += v * L
+            if wrong is None and total != world.want_count(env):
+                wrong = (env, '%d octets hashed, RFC 4880 says %d' % (total, world.want_count(env)))
+            if wrong:
+                break
+    except (s2kshape._NoFold,) as ex:
+        wrong = ({}, 'the stream length depends on %s, which is neither the octet count nor the length of salt+passphrase' % ex)
+    except SyntaxError as ex:
+        raise AnalysisError('String2Key.derive_key: stream length is not an arithmetic expression: %s' % [p[1] for p in pieces])
+    COUNT = ('max(count, len(unit))' if world.iterated else 'len(unit)')
+    desc = ' + '.join(('%s copies' % p[1]) if p[0] == 'copies' else ('first %s octets' % p[1]) for p in pieces)
+    rep.check(wrong is None, R1, c, '%s: stream length %s' % (scen, desc),
+              'the stream must be exactly COUNT = %s octets: full copies = COUNT // len(unit), remainder = COUNT %% len(unit)%s'
+              % (COUNT, '' if wrong is None else ' (%s when count=%s, len(unit)=%s)' % (wrong[1], wrong[0].get('%s.count' % world.me), wrong[0].get('__L__'))),
+              where=fi.where, expected='q = COUNT // len(unit), r = COUNT - q * len(unit), COUNT = %s' % COUNT,
+              found=desc, scenario=scen)
+
+
+def _top(t):
+    out, d = [], 0
+    for ch in t:
+        if ch in '([{':
+            d += 1
+        elif ch in ')]}':
+            d -= 1
+        out.append(ch if d == 0 else '_')
+    return ''.join(out)
